@@ -53,8 +53,8 @@ func writeEvidence(p *Plan, agg *Agg, recs []*violRec, validated, mismatches, nV
 	}
 	sort.Strings(funcs)
 	sort.Strings(execFuncs)
-	if len(execFuncs) > 400 {
-		execFuncs = execFuncs[:400]
+	if len(execFuncs) > 3000 {
+		execFuncs = execFuncs[:3000]
 	}
 	type site struct {
 		Pos string `json:"pos"`
